@@ -1,0 +1,49 @@
+//go:build verif
+
+package version
+
+import (
+	"os"
+
+	"github.com/lindb/lindb/pkg/bufioutil"
+)
+
+// Simulation hook (build tag verif): lets the simulator observe, and place a
+// process death before, every file-system effect of the version set.
+
+type verifWriter struct {
+	bufioutil.BufioWriter
+	name string
+	pre  func(op, path string)
+}
+
+func (w *verifWriter) Write(b []byte) (int, error) { w.pre("write", w.name); return w.BufioWriter.Write(b) }
+func (w *verifWriter) Sync() error                 { w.pre("sync", w.name); return w.BufioWriter.Sync() }
+func (w *verifWriter) Flush() error                { w.pre("flush", w.name); return w.BufioWriter.Flush() }
+func (w *verifWriter) Close() error                { w.pre("close", w.name); return w.BufioWriter.Close() }
+
+// VerifSetFS wraps the package's file-system seams with pre(op, path); nil restores them.
+func VerifSetFS(pre func(op, path string)) {
+	if pre == nil {
+		writeFileFunc = os.WriteFile
+		renameFunc = os.Rename
+		newBufferWriterFunc = bufioutil.NewBufioEntryWriter
+		return
+	}
+	writeFileFunc = func(name string, data []byte, perm os.FileMode) error {
+		pre("writefile", name)
+		return os.WriteFile(name, data, perm)
+	}
+	renameFunc = func(oldpath, newpath string) error {
+		pre("rename", newpath)
+		return os.Rename(oldpath, newpath)
+	}
+	newBufferWriterFunc = func(fileName string) (bufioutil.BufioWriter, error) {
+		pre("create", fileName)
+		w, err := bufioutil.NewBufioEntryWriter(fileName)
+		if err != nil {
+			return nil, err
+		}
+		return &verifWriter{BufioWriter: w, name: fileName, pre: pre}, nil
+	}
+}
